@@ -3,6 +3,7 @@
 package verifh
 
 import (
+	"github.com/ory/keto/internal/driver/config"
 	"context"
 	"encoding/json"
 	"fmt"
@@ -191,6 +192,16 @@ func suiteExpand(t *testing.T, cfg cfgT) {
 			out.emit(fmt.Sprintf("expand S %s %s %s %d", hx(ns), hx(obj), hx(rel), rd), fmt.Sprintf("%d %s ; %d %s", code, restTree, gcode, gTree))
 			out.stat(fmt.Sprintf("expand.%d", code))
 			cases++
+			if i == 4 { // the global limit changes while the server runs (configuration reload): the next expands follow it
+				g2 := []int{30, 1, 2, 3, 5, 8}[hr.intn(6)]
+				if g2 != ee.gdepth {
+					_ = ee.e.reg.Config(ctx).Set(config.KeyLimitMaxReadDepth, g2)
+					ee.gdepth = g2
+					ee.header(out)
+					ee.table(out)
+					out.stat("depth_changed")
+				}
+			}
 		}
 		ee.e.close()
 	}
